@@ -255,7 +255,8 @@ class CutoffSplitter(BaseSplitter):
 
         fh = _check_fh(self.fh)
 
-        if np.max(cutoffs) + np.max(fh) > y.shape[0]:
+        # (positions: the last test point is cutoff + max(fh), which must exist)
+        if np.max(cutoffs) + np.max(fh) >= y.shape[0]:
             raise ValueError("`fh` is incompatible with given `cutoffs` and `y`.")
         window_length = check_window_length(self.window_length)
 
